@@ -518,3 +518,41 @@ def rule_post_solve(ctx, rule='R01.f'):
     else:
         ctx.holds(rule, construct, 'cost is re-evaluated at result.x after root returns; totalCorr left in real space '
                   '(%d paths)' % n, m.loc())
+
+
+def rule_omega_length_guard(ctx, rule='R12.w'):
+    """The omega values that become PRISM.omega pass an equal-length guard while the PRISM object is built: either the
+    table is exported with PairTable.exportToMatrixArray (whose guard is R12.e) or every evaluated entry is compared
+    with the domain length.  A plain `MatrixArray[t1,t2] = value` relies on numpy broadcasting, which silently accepts a
+    0-d or length-1 entry (a one-column file with a single number) for any grid."""
+    cls = ctx.prog.cls(PRISMQ)
+    m = cls.find_method('__init__')
+    construct = PRISMQ + '.__init__'
+    try:
+        worlds = explore(lambda preset: build_prism(ctx.prog, preset))
+    except (Unsupported, Raised) as e:
+        ctx.undecided(rule, construct, str(e), m.loc())
+        return
+    bad = []
+    for d, ip, r in worlds:
+        exported = [x for k_, x in ip.notes if k_ == 'pairtable-export']
+        calcs = [x for k_, x in ip.notes if k_ == 'omega-calculate']
+        if not calcs:
+            bad.append('no omega model is evaluated while the PRISM object is built')
+            continue
+        if exported:
+            continue
+        guarded = False
+        for g in ip.guards:
+            c = getattr(g.get('cond'), 'cond', None)
+            if c is not None and 'omega(' in c.show() and 'len' in c.show():
+                guarded = True
+        if not guarded:
+            bad.append('the evaluated omega table is stored into PRISM.omega without exportToMatrixArray and without a length '
+                       'comparison (stores at %s): a 0-d / one-point table entry is broadcast over the whole Fourier grid '
+                       'instead of being rejected' % sorted({x['loc'] for x in calcs})[:2])
+    if bad:
+        ctx.violation(rule, construct, 'omega-length-guard', bad[0], m.loc())
+    else:
+        ctx.holds(rule, construct, 'the omega table is evaluated out of place and reaches PRISM.omega through '
+                  'PairTable.exportToMatrixArray (equal-length guard R12.e) on every path (%d)' % len(worlds), m.loc())
